@@ -27,7 +27,7 @@ def words_and_gaps(cells):
     word i and word i+1."""
     words, gaps, cur, gap = [], [], [], []
     for c in cells:
-        if c[0] in WS:
+        if c[0].isspace():        # what \s matches in a str pattern: every Unicode whitespace character
             if cur:
                 words.append(cur)
                 cur = []
@@ -156,7 +156,7 @@ def run_case(ctx, case):
         for i, (g, wl) in enumerate(zip(got, want)):
             if len(g) > columns:
                 problems.append("line %d longer than columns" % i)
-            if g and (g[0][0] in WS or g[-1][0] in WS):
+            if g and (g[0][0].isspace() or g[-1][0].isspace()):
                 problems.append("line %d starts/ends with whitespace" % i)
             pos = 0
             for kind, cs in wl:
@@ -200,7 +200,8 @@ def run(ctx):
     ctx.notes["max_length_enumerated"] = N
     rng = ctx.rng
     for _ in range(ctx.share(3000 if ctx.quick else 150000)):
-        alpha = "abcdefg    \t\n" if rng.random() < .6 else "ab一Ｅ́é\x01  \t\n"
+        r_ = rng.random()
+        alpha = "abcdefg    \t\n" if r_ < .5 else "ab一Ｅ́é\x01  \t\n" if r_ < .8 else "abc  \xa0\u2003\u3000\x85\u2028\x1c\r\x0b"
         text = "".join(rng.choice(alpha) for _ in range(rng.randint(0, 40)))
         run_case(ctx, {"text": text, "pattern": rng.choice(PATTERNS), "columns": rng.randint(1, 12)})
         ctx.count("random_texts")
